@@ -26,36 +26,48 @@ def idxOf (a : Nat) : List Nat → Nat → Option Nat
   | [], _ => none
   | x :: r, k => if x = a then some k else idxOf a r (k + 1)
 
+/-- rendering budget: at most this many values are written out per top-level value; the rest is
+    `~` (both the model and the harness truncate identically, so huge shared structures compare) -/
+def renderBudget : Nat := 3000
+
 mutual
-/-- `path`: addresses of the containers being rendered, innermost first (cycle detection) -/
-def render (h : Heap) : Nat → List Nat → Val → Bytes
-  | _, _, .nil => [110]                       -- n
-  | _, _, .bool b => if b then [116] else [102]   -- t / f
-  | _, _, .int i => 105 :: decInt i           -- i<dec>
-  | _, _, .float b => 100 :: decNat b.toNat   -- d<bits>
-  | _, _, .str s => 115 :: hexOf s            -- s<hex>
-  | 0, _, .ref _ => [63]                      -- ?
-  | f+1, path, .ref a =>
+/-- `path`: addresses of the containers being rendered, innermost first (cycle detection);
+    `b`: remaining budget; returns the text and the budget left -/
+def render (h : Heap) : Nat → List Nat → Nat → Val → Bytes × Nat
+  | _, _, 0, _ => ([126], 0)                         -- ~
+  | _, _, b+1, .nil => ([110], b)                     -- n
+  | _, _, b+1, .bool x => (if x then [116] else [102], b)   -- t / f
+  | _, _, b+1, .int i => (105 :: decInt i, b)         -- i<dec>
+  | _, _, b+1, .float x => (100 :: decNat x.toNat, b) -- d<bits>
+  | _, _, b+1, .str s => (115 :: hexOf s, b)          -- s<hex>
+  | 0, _, b+1, .ref _ => ([63], b)                    -- ?
+  | f+1, path, b+1, .ref a =>
     match idxOf a path 0 with
-    | some k => 94 :: decNat k                -- ^k : cycle to the k-th enclosing container
+    | some k => (94 :: decNat k, b)                   -- ^k : cycle to the k-th enclosing container
     | none => match h.get? a with
-      | some (.list xs) => 91 :: renderList h f (a :: path) xs ++ [93]
-      | some (.map kvs) => 123 :: renderMap h f (a :: path) (sortKeys kvs) ++ [125]
-      | none => [63]
-def renderList (h : Heap) : Nat → List Nat → List Val → Bytes
-  | _, _, [] => []
-  | 0, _, _ => [63]
-  | f+1, path, [x] => render h f path x
-  | f+1, path, x :: r => render h f path x ++ 44 :: renderList h f path r
-def renderMap (h : Heap) : Nat → List Nat → List (Bytes × Val) → Bytes
-  | _, _, [] => []
-  | 0, _, _ => [63]
-  | f+1, path, [(k, v)] => hexOf k ++ 58 :: render h f path v
-  | f+1, path, (k, v) :: r => hexOf k ++ 58 :: render h f path v ++ 44 :: renderMap h f path r
+      | some (.list xs) => let (t, b') := renderList h f (a :: path) b xs; (91 :: t ++ [93], b')
+      | some (.map kvs) => let (t, b') := renderMap h f (a :: path) b (sortKeys kvs); (123 :: t ++ [125], b')
+      | none => ([63], b)
+def renderList (h : Heap) : Nat → List Nat → Nat → List Val → Bytes × Nat
+  | _, _, b, [] => ([], b)
+  | 0, _, b, _ => ([63], b)
+  | f+1, path, b, [x] => render h f path b x
+  | f+1, path, b, x :: r =>
+    let (t1, b1) := render h f path b x
+    let (t2, b2) := renderList h f path b1 r
+    (t1 ++ 44 :: t2, b2)
+def renderMap (h : Heap) : Nat → List Nat → Nat → List (Bytes × Val) → Bytes × Nat
+  | _, _, b, [] => ([], b)
+  | 0, _, b, _ => ([63], b)
+  | f+1, path, b, [(k, v)] => let (t, b') := render h f path b v; (hexOf k ++ 58 :: t, b')
+  | f+1, path, b, (k, v) :: r =>
+    let (t1, b1) := render h f path b v
+    let (t2, b2) := renderMap h f path b1 r
+    (hexOf k ++ 58 :: t1 ++ 44 :: t2, b2)
 end
 
-def renderFuel (h : Heap) : Nat := 1000 + 50 * h.length
-def renderV (h : Heap) (v : Val) : Bytes := render h (renderFuel h) [] v
+def renderFuel (_h : Heap) : Nat := 2 * renderBudget + 100
+def renderV (h : Heap) (v : Val) : Bytes := (render h (renderFuel h) [] renderBudget v).1
 /-- value with its tag -/
 def renderTV (h : Heap) (x : TV) : Bytes := bytesOf x.t.name ++ 61 :: renderV h x.v
 
